@@ -25,13 +25,13 @@ COMPONENTS = {"real": ["string primitives in sexp.c/eval.c/vm.c (string-set! re-
                        "buffered port refill/flush, peek push-back", "read-string/read-line in init-7/extras/(chibi io)", "collector", "scheduler blocking on descriptors"],
               "stub": ["byte delivery/acceptance schedule (cookie FILE*, interposed read/write/poll, custom-port callbacks)", "collection schedule", "clock"]}
 BUDGET = {"quick": {"seconds": 50, "cases": 8000}, "thorough": {"seconds": 900, "cases": 600000}}
-IMPORTS = ["(srfi 18)", "(chibi io)", "(scheme char)"]
+IMPORTS = ["(srfi 18)", "(chibi io)", "(scheme char)", "(prefix (chibi string) cs:)", "(prefix (srfi 130) s130:)"]
 CONFIGS = {
     "sim": {"variant": "sim", "imports": IMPORTS, "timeout_ms": 60000},
     "tiny": {"variant": "tiny", "imports": IMPORTS, "timeout_ms": 60000},
     "asan": {"variant": "asan", "imports": IMPORTS, "timeout_ms": 180000},
 }
-CHARS = {1: [0x61, 0x7a, 0x20, 0x30, 0x7e], 2: [0xe9, 0x3bb, 0x7ff, 0x80], 3: [0x4e2d, 0x20ac, 0x800, 0xffff, 0x3042], 4: [0x1f600, 0x10000, 0x10ffff]}
+CHARS = {1: [0x61, 0x7a, 0x20, 0x30, 0x7e, 0x61, 0x0, 0x7f], 2: [0xe9, 0x3bb, 0x7ff, 0x80], 3: [0x4e2d, 0x20ac, 0x800, 0xffff, 0x3042], 4: [0x1f600, 0x10000, 0x10ffff]}
 PRELUDE = st.SCHEME_PRELUDE + r"""
 (define S (make-vector 4 ""))
 (define (obs s) (list (string-length s) (map char->integer (string->list s))
@@ -72,7 +72,7 @@ def gen_history(rng):
         ops.append({"src": "(vector-set! S %d (string-copy %s)) 'ok" % (i, lit(model[i])), "k": "init", "t": i, "a": [list(model[i])]})
     for opi in range(n):
         op = rng.weighted([("set", 8), ("substring", 3), ("append", 3), ("copy!", 3), ("fill", 2), ("fromlist", 2), ("utf8", 2), ("copy", 2),
-                           ("cmp", 2), ("case", 1), ("write-out", 4), ("read-in", 4), ("vector", 1)])
+                           ("cmp", 2), ("affix", 3), ("case", 1), ("write-out", 4), ("read-in", 4), ("vector", 1)])
         i, j, k = rng.below(4), rng.below(4), rng.below(4)
         Si, Sj, Sk = "(vector-ref S %d)" % i, "(vector-ref S %d)" % j, "(vector-ref S %d)" % k
         if op == "set":
@@ -131,6 +131,12 @@ def gen_history(rng):
             a, b = model[i], model[j]
             want = "(%s %s %s)" % ("#t" if a == b else "#f", "#t" if a < b else "#f", "#t" if a == list(model[i]) else "#f")
             ops.append({"src": "(list (string=? %s %s) (string<? %s %s) (equal? %s (string-copy %s)))" % (Si, Sj, Si, Sj, Si, Si), "k": "cmp", "a": [i, j]})
+        elif op == "affix":
+            # prefix / suffix / search relations between two strings of the history (substring and append operations make related pairs),
+            # through both libraries that implement them ((chibi string) and SRFI 130)
+            ops.append({"src": "(list (cs:string-prefix? %s %s) (cs:string-suffix? %s %s) (s130:string-prefix? %s %s) (s130:string-suffix? %s %s) "
+                               "(let ((c (s130:string-contains %s %s))) (and c (s130:string-cursor->index %s c))))" % (Si, Sj, Si, Sj, Si, Sj, Si, Sj, Sj, Si, Sj),
+                        "k": "affix", "a": [i, j]})
         elif op == "case":
             # ASCII-only effect is portable; other characters are left to the implementation's tables (not asserted)
             if any(c > 0x7f for c in model[i]):
@@ -219,6 +225,12 @@ def replay_model(ops):
             elif k == "cmp":
                 x, y = m[a[0]], m[a[1]]
                 exp["want"] = "(%s %s #t)" % ("#t" if x == y else "#f", "#t" if x < y else "#f")
+            elif k == "affix":
+                x, y = m[a[0]], m[a[1]]
+                pre = "#t" if y[:len(x)] == x else "#f"
+                suf = "#t" if (len(x) <= len(y) and y[len(y) - len(x):] == x) else "#f"
+                pos = next((p for p in range(len(y) - len(x) + 1) if y[p:p + len(x)] == x), None)
+                exp["want"] = "(%s %s %s %s %s)" % (pre, suf, pre, suf, "#f" if pos is None else str(pos))
             elif k == "write-out":
                 exp["bytes"] = "".join(map(chr, m[a[0]])).encode("utf-8")
             elif k == "read-in":
@@ -294,10 +306,10 @@ def execute(case, run):
             if s_op["exc"]:
                 V.append(Verdict("op-error", "op %d %s raised %s" % (i, o["src"][:120], s_op["res"][:200]), {"op": o["k"]}))
                 break
-            if o["k"] == "cmp":
+            if o["k"] in ("cmp", "affix"):
                 checks += 1
                 if s_op["res"] != exp["want"]:
-                    V.append(Verdict("model-mismatch:cmp", "op %d %s -> %s, model %s" % (i, o["src"][:120], s_op["res"], exp["want"]), {}))
+                    V.append(Verdict("model-mismatch:" + o["k"], "op %d %s -> %s, model %s" % (i, o["src"][:160], s_op["res"], exp["want"]), {}))
                     break
             if exp.get("obs") is not None:
                 checks += 1
